@@ -39,7 +39,9 @@ type LinearState struct {
 
 	Facts map[string]RawFact
 
+	cacheLock   sync.Mutex
 	cachedRules map[string]*Rule
+	cacheGen    uint64
 
 	store Storage
 
@@ -57,6 +59,59 @@ func (s *LinearState) withPrivilege(ctx *Context) *Context {
 
 func (s *LinearState) withoutPrivilege(hctx *Context) {
 	hctx.revokePrivilege()
+}
+
+// The parsed rules ('cachedRules') have a lock of their own,
+// 'cacheLock': events look at them and fill them in after they have
+// let go of the state's lock ('FindCachedRules').  Nothing else is
+// locked while 'cacheLock' is held.
+//
+// 'cacheGen' counts the invalidations.  An event notes it before it
+// reads the rules from the state and caches what it parsed only if
+// nothing was invalidated since; otherwise an event that overlaps the
+// replacement of a rule would cache the replaced rule for good.  For
+// that, the invalidation happens with the state's lock held, where
+// the facts change.
+
+// uncache forgets the parsed rule with the given id.
+func (s *LinearState) uncache(id string) {
+	s.cacheLock.Lock()
+	defer s.cacheLock.Unlock()
+	delete(s.cachedRules, id)
+	s.cacheGen++
+}
+
+// uncacheAll forgets all parsed rules.
+func (s *LinearState) uncacheAll() {
+	s.cacheLock.Lock()
+	defer s.cacheLock.Unlock()
+	s.cachedRules = make(map[string]*Rule)
+	s.cacheGen++
+}
+
+// cacheGeneration returns the number of invalidations so far.
+func (s *LinearState) cacheGeneration() uint64 {
+	s.cacheLock.Lock()
+	defer s.cacheLock.Unlock()
+	return s.cacheGen
+}
+
+// cached returns the parsed rule with the given id, if any.
+func (s *LinearState) cached(id string) (*Rule, bool) {
+	s.cacheLock.Lock()
+	defer s.cacheLock.Unlock()
+	rule, have := s.cachedRules[id]
+	return rule, have
+}
+
+// cache remembers the parsed rule unless something was invalidated
+// since the given generation.
+func (s *LinearState) cache(id string, rule *Rule, gen uint64) {
+	s.cacheLock.Lock()
+	defer s.cacheLock.Unlock()
+	if s.cacheGen == gen {
+		s.cachedRules[id] = rule
+	}
 }
 
 func (s *LinearState) slock(ctx *Context, read bool) {
@@ -165,7 +220,6 @@ func (s *LinearState) Load(ctx *Context) error {
 
 func (s *LinearState) Add(ctx *Context, id string, x Map) (string, error) {
 	Log(DEBUG, ctx, "LinearState.Add", "state", s.Name, "x", x, "id", id)
-	delete(s.cachedRules, id)
 	timer := NewTimer(ctx, "LinearState.Add")
 	defer timer.Stop()
 
@@ -204,6 +258,9 @@ func (s *LinearState) Add(ctx *Context, id string, x Map) (string, error) {
 		}
 	}
 	s.Facts[id] = RawFact{m, bs}
+	// Here, where the fact changes, and under the id it has now,
+	// which needn't be the given one.
+	s.uncache(id)
 	s.sunlock(ctx, false)
 
 	return id, nil
@@ -228,7 +285,6 @@ func (s *LinearState) Rem(ctx *Context, id string) (bool, error) {
 
 func (s *LinearState) rem(ctx *Context, id string, lock bool) (bool, error) {
 	Log(DEBUG, ctx, "LinearState.rem", "id", id)
-	delete(s.cachedRules, id)
 	_, err := s.store.Remove(ctx, s.Name, []byte(id))
 	// ToDo: Consider what's returned.
 	if err != nil {
@@ -247,6 +303,7 @@ func (s *LinearState) rem(ctx *Context, id string, lock bool) (bool, error) {
 		Log(DEBUG, ctx, "LinearState.Rem", "missing", id)
 	}
 	delete(s.Facts, id)
+	s.uncache(id)
 	// At least for now, we delete dependencies AFTER deleting the
 	// requested fact.  Otherwise we risk loops that are expensive
 	// to detect.
@@ -427,6 +484,7 @@ func (s *LinearState) FindCachedRules(ctx *Context, event Map) (map[string]*Rule
 	timer := NewTimer(ctx, "LinearState.FindCachedRules")
 	defer timer.Stop()
 
+	gen := s.cacheGeneration()
 	rules, err := s.doFindRules(ctx, event)
 	if err != nil {
 		return nil, err
@@ -434,8 +492,8 @@ func (s *LinearState) FindCachedRules(ctx *Context, event Map) (map[string]*Rule
 
 	acc := make(map[string]*Rule)
 	for id, r := range rules {
-		if _, isCached := s.cachedRules[id]; isCached {
-			acc[id] = s.cachedRules[id]
+		if rule, isCached := s.cached(id); isCached {
+			acc[id] = rule
 		} else {
 			rule, err := RuleFromMap(ctx, r)
 			if err != nil {
@@ -451,7 +509,7 @@ func (s *LinearState) FindCachedRules(ctx *Context, event Map) (map[string]*Rule
 			// so it gets its id before anybody else can see it.
 			rule.Id = id
 			acc[id] = rule
-			s.cachedRules[id] = rule
+			s.cache(id, rule, gen)
 		}
 	}
 	return acc, nil
@@ -492,7 +550,7 @@ func (s *LinearState) Clear(ctx *Context) error {
 	// Maybe protect the store (above), too.
 	s.slock(ctx, false)
 	s.Facts = make(map[string]RawFact)
-	s.cachedRules = make(map[string]*Rule)
+	s.uncacheAll()
 	s.sunlock(ctx, false)
 	return nil
 }
@@ -509,7 +567,7 @@ func (s *LinearState) Delete(ctx *Context) error {
 	// Maybe protect the store (above), too.
 	s.slock(ctx, false)
 	s.Facts = make(map[string]RawFact)
-	s.cachedRules = make(map[string]*Rule)
+	s.uncacheAll()
 	s.sunlock(ctx, false)
 	return nil
 }
